@@ -159,6 +159,13 @@ func checkC19(r *run, c *VLACase) (CaseInfo, error) {
 
 		return ci, failf("Marshal(%s) = %s, the specification layout is %s", before, hx(got), hx(want))
 	}
+	// the caller owns the returned buffer: overwriting it (and its spare capacity) must not reach a later Marshal
+	for i, full := 0, got[:cap(got)]; i < len(full); i++ {
+		full[i] ^= 0xFF
+	}
+	if again, err := v.Marshal(); err != nil || !bytes.Equal(again, want) {
+		return ci, failf("a second Marshal(%s), after the caller overwrote the first result, = (%s,%v), the specification layout is %s", before, hx(again), err, hx(want))
+	}
 	var fresh rtp.VLA
 	n, err := fresh.Unmarshal(clone(want))
 	if err != nil || n != len(want) {
